@@ -324,15 +324,25 @@ package util
 
 //@ func GetLongestDataString
 //@   property C10, C12
+//@   safe
+//@   terminates
 //@   pure
-//@   trusted "uses float64 math.Ceil, which this verifier treats as opaque; for len(domain) <= 180 the result is (250-len) - ceil((250-len)/60) >= 68"
 //@   ensures len(domain) <= 180 ==> result >= 1 && result <= 250
+// C10: a full chunk, the two order characters of a CNAME and the dots Dotify inserts (one after every 57
+// characters), followed by the tunnel domain, is a name PrepareHostname accepts
+//@   property C10
+//@   ensures len(domain) <= 180 ==> result + 2 + (result + 1) / 57 + len(domain) + 2 <= HostnameMaxLen - 2    :a_full_chunk_with_order_tag_and_dots_fits_a_name
+// (the same without division: n + (n-1)/57 <= S is 58 n <= 57 S + 57)
+//@   ensures len(domain) <= 180 ==> 58 * (result + 2) <= 57 * (HostnameMaxLen - 2 - len(domain) - 2) + 57      :a_full_chunk_fits_linear_form
 
 //@ func PrepareHostname
 //@   property C09, C10, C12
 //@   safe
 //@   pure
 //@   ensures err == nil ==> len(result) <= HostnameMaxLen - 2                 :name_fits
+// C10: data within the record capacity is never refused
+//@   property C10
+//@   ensures len(domain) <= 180 && len(data) > 0 && 58 * len(data) <= 57 * (HostnameMaxLen - 2 - len(domain) - 2) + 57 ==> err == nil    :data_within_capacity_is_accepted
 // C09: the encoded request (codec alphabets and header characters contain no dot) gets dots only from Dotify
 //@   property C09
 //@   requires forall i :: 0 <= i && i < len(data) ==> data[i] != '.'          :data_has_no_dots
@@ -359,6 +369,10 @@ package util
 //@   loop 1 invariant len(res) >= len(old(buf)) - len(buf) && (len(res) == 0) == (len(buf) == len(old(buf)))
 //@   loop 1 invariant len(res) > 0 ==> res[0] != '.'
 //@   loop 1 invariant forall p :: 0 <= p && p < len(res) && res[p] == '.' ==> p > 0 && res[p-1] != '.'
+// C10 / C09: exactly one dot after every 57 octets (58 octets out for 57 in), so the length of the result is known
+//@   property C09, C10
+//@   loop 1 invariant 57 * len(res) == 58 * (len(old(buf)) - len(buf))                                :fifty_eight_out_for_fifty_seven_in
+//@   ensures len(buf) > 0 ==> 58 * len(buf) - 57 * len(res) >= 1 && 58 * len(buf) - 57 * len(res) <= 57     :one_dot_after_every_57_octets
 
 //@ func WrapDnsResponse
 //@   property C10, C12
@@ -435,6 +449,10 @@ package util
 //@   loop 1 vars data []byte
 //@   loop 1 invariant msg != nil && len(msg.Question) >= 1 && (spec_sameref(msg.Answer, old(msg.Answer)) || spec_fresh(msg.Answer))
 //@   loop 1 decreases len(data)
+// C10: a chunk of at most the record capacity (plus the order tag) is never refused as too long: every payload is
+// carried, whatever its length
+//@   property C10
+//@   callsite PrepareHostname#1 (target []byte, err error) assert err == nil                              :a_chunk_within_capacity_is_never_refused
 
 //@ func WrapDnsResponseSrv
 //@   property C10, C12
@@ -445,6 +463,10 @@ package util
 //@   loop 1 vars data []byte
 //@   loop 1 invariant msg != nil && len(msg.Question) >= 1 && (spec_sameref(msg.Answer, old(msg.Answer)) || spec_fresh(msg.Answer))
 //@   loop 1 decreases len(data)
+// C10: a chunk of at most the record capacity (plus the order tag) is never refused as too long: every payload is
+// carried, whatever its length
+//@   property C10
+//@   callsite PrepareHostname#1 (target []byte, err error) assert err == nil                              :a_chunk_within_capacity_is_never_refused
 
 //@ func WrapDnsResponseMx
 //@   property C10, C12
@@ -455,6 +477,10 @@ package util
 //@   loop 1 vars data []byte
 //@   loop 1 invariant msg != nil && len(msg.Question) >= 1 && (spec_sameref(msg.Answer, old(msg.Answer)) || spec_fresh(msg.Answer))
 //@   loop 1 decreases len(data)
+// C10: a chunk of at most the record capacity (plus the order tag) is never refused as too long: every payload is
+// carried, whatever its length
+//@   property C10
+//@   callsite PrepareHostname#1 (target []byte, err error) assert err == nil                              :a_chunk_within_capacity_is_never_refused
 
 //@ func WrapDnsResponseTxt
 //@   property C10, C12
